@@ -155,3 +155,28 @@ pub fn map_eq<const NA: usize, const NB: usize>() {
     core::mem::forget(a);
     core::mem::forget(b);
 }
+
+/// clone_from with concrete occupancy counts of the target (it, dt) and the source (is_):
+/// used for the configuration in which both tables report the same capacity() although their
+/// bucket counts differ.
+pub fn clone_from_counts<const NT: usize, const NS: usize>(it: usize, dt: usize, is_: usize) {
+    reset();
+    let h: [u64; K] = any();
+    let mut tgt: TC = HashTable::with_capacity_in(capreq(NT), LedgerAlloc);
+    let st_t = fill::<DC, _, NT>(hv::raw_of_table(&mut tgt), Spec { items: it, deleted: dt, kind: InvKind::Full, h: &h, distinct: true, id_is_slot: false, layout: None, concrete_tags: None });
+    let mut src: TC = HashTable::with_capacity_in(capreq(NS), LedgerAlloc);
+    let st_s = fill::<DC, _, NS>(hv::raw_of_table(&mut src), Spec { items: is_, deleted: 0, kind: InvKind::Full, h: &h, distinct: true, id_is_slot: false, layout: None, concrete_tags: None });
+    assert!(tgt.capacity() == src.capacity());
+    Clone::clone_from(hv::raw_of_table(&mut tgt), hv::raw_of_table_ref(&src));
+    let rt = hv::raw_of_table_ref(&tgt);
+    assert!(buckets_of(rt) == NS);
+    let post = snap::<DC, _, NS>(rt);
+    assert!(inv::<NS>(&post, InvKind::Full, &h, true, true));
+    let q = any_id();
+    assert!(post.mult(q) == st_s.mult(q));
+    assert!(drops(q) == st_t.mult(q) as u8);
+    assert!(tgt.len() == is_);
+    unsafe { assert!(A_LIVE == 2) };
+    core::mem::forget(tgt);
+    core::mem::forget(src);
+}
